@@ -32,6 +32,11 @@ CLAIMED.update({
    text="Decides: in the absolute, relative and helper (timestamp/custom-format) pipelines the tzinfo strip is enabled exactly for RETURN_AS_TIMEZONE_AWARE=False or (default and no zone in the string) - all 15 setting/zone rows evaluated concretely; every replace(tzinfo=Z)/Z.localize(d) acts on a provably naive value (dominating tzinfo test, naive constructor via reaching definitions, or all callers pass naive values) so aware values change zone only via astimezone; the single TO_TIMEZONE conversion is guarded by exactly the setting's truthiness, never follows the strip, and follows every application of TIMEZONE; timestamps are expressed in TIMEZONE by fromtimestamp(seconds, zone). Does not decide DST gaps/ambiguity, pytz tables or tzlocal.",
    note="Assumes custom formats carry no %z (strptime results are naive); absolute parser results are naive (params literal without tzinfo: checked).", ref="DESIGN.md §4 C12"),
 })
+CLAIMED.update({
+ "C03": dict(cat="other", tech="alias/taint dataflow to mutation sinks; restore-on-all-exits on a CFG with class-refined exception edges; cache single-writer/key/eviction rules (ast)",
+   text="Decides necessary conditions of history independence: no in-place mutation is reachable through any alias of the caller's containers (settings dict, its list values, languages, locales, date_formats; interprocedural, field-based); every temporary store to a field of a Settings object (cached per settings hash, hence shared between calls) is stored back from a saved value on every normal and exceptional exit of the function or of all its callers; the five class-level dictionary caches are written only by _add_to_cache, keyed by (settings hash, globally distinct locale name), with an eviction that cannot remove the entry just written; the settings hash digests every key with its value; no set-typed value is joined, indexed or early-returned from. Does not decide equality of results across arbitrary histories.",
+   note="Lazy per-locale attributes that depend on the first caller's SKIP_TOKENS are NOT armed here (no history with a differing result could be produced); they appear in C20's inventory only. Exemption with checked precondition: settings.NORMALIZE = True in Locale._get_split_dictionary.", ref="DESIGN.md §4 C03"),
+})
 NA_REASON = {}
 
 def main():
